@@ -69,10 +69,13 @@ class Mutex {
 
         hold_token_.reset();
 
-        if (!wait_tokens_.empty()) {
-            auto t = wait_tokens_.front();
+        //! 为什么要唤醒所有的等待者，而不是只唤醒最早的那个？
+        //! 因为 wait_tokens_ 中的协程可能已被 cancel() 了（甚至已经结束了），它不会来加锁，
+        //! 也没有机会把这次唤醒转交给后面的等待者，后面的等待者就会守着空闲的锁一直睡下去。
+        //! 被唤醒的协程按等待的先后顺序依次执行，没有抢到锁的会重新排队。
+        while (!wait_tokens_.empty()) {
+            sch_.resume(wait_tokens_.front());
             wait_tokens_.pop();
-            sch_.resume(t);
         }
     }
 
